@@ -1460,6 +1460,12 @@ func main() {
 				histories = append(histories, fmt.Sprintf("%s#%d: %s", *mode, i, t))
 			}
 		}
+		if os.Getenv("VERIF_KEEP") != "" {
+			keep := os.Getenv("VERIF_KEEP")
+			os.RemoveAll(keep)
+			_ = os.Rename(dir, keep)
+			fmt.Fprintln(os.Stderr, "kept", keep)
+		}
 		os.RemoveAll(dir)
 	}
 	cw.Close()
